@@ -203,6 +203,8 @@ class Requestant(httping.Parsent):
             raise ValueError("Invalid content length of {0}".format(self.length))
 
         del self.body[:]  # self.body.clear() clear body python2 bytearrays don't clear
+        self.parms = None  # chunk extension parms and trailers are per message
+        self.trails = None
 
         if self.chunked:  # chunked takes precedence over length
             self.parms = dict()
